@@ -51,32 +51,28 @@ Definition blocked_eqb (a b : blocked) : bool :=
 Definition obs_eqb (a b : obs) : bool :=
   cbs_eqb (ocbs a) (ocbs b) && Bool.eqb (orecv a) (orecv b) && blocked_eqb (oblk a) (oblk b).
 
-Definition noflags : gflags := {| g_f10 := false; g_nf := false; g_coll := false |}.
+Definition noflags : gflags := {| g_nf := false; g_coll := false |}.
 
-(* The ghost flags are made local for tagging: the F10 flag is cleared
-   whenever the goroutine is back at BestBlock (so it speaks about the block
-   the catch-up branch is announcing now), the others before every step.
-   Ghost flags never influence the behaviour. *)
-Definition relax (s : state) : state :=
-  set_gf {| g_f10 := match pc s with PBest => false | _ => g_f10 (gf s) end;
-            g_nf := false; g_coll := false |} s.
+(* The ghost flags are made local for tagging: they are cleared before every
+   step.  Ghost flags never influence the behaviour. *)
+Definition relax (s : state) : state := set_gf noflags s.
 
 (* rows for one case: model/implementation mismatch (kind 1, first only),
    monitor rejections of the IMPLEMENTATION trace (kind 2, every one, with
-   the root-cause tag the model attaches to that step: 1 = catch-up adopted
-   a non-child (F10), 2 = catch-up told "hash not found" by the filter
-   fetch, 0 = none) *)
+   the root-cause tag the model attaches to that step: 2 = catch-up told
+   "hash not found" by the filter fetch, 0 = none; tag 1 was finding F10,
+   repaired).  The model runs with the honest filter [matches]. *)
 Fixpoint scan_case (id : Z) (s : state) (m : mon) (agree : bool) (i : Z)
          (tr : list (ev * obs)) : list (Z * Z * Z * Z) :=
   match tr with
   | [] => []
   | (e, ob) :: rest =>
-    let '(s', mob) := step (relax s) e in
+    let '(s', mob) := step matches (relax s) e in
     let ok := obs_eqb mob ob in
     let '(m', a, b) := mon_step m (e, ob) in
     (if agree && negb ok then [(id, 1, i, 0)] else []) ++
     (if agree && g_coll (gf s') then [(id, 1, i, 9)] else []) ++
-    (if a then [] else [(id, 2, i, if agree && ok && g_f10 (gf s') then 1 else 0)]) ++
+    (if a then [] else [(id, 2, i, 0)]) ++
     (if b then [] else [(id, 2, i, if agree && ok && g_nf (gf s') then 2 else 0)]) ++
     scan_case id s' m' (agree && ok) (i + 1) rest
   end.
